@@ -3,6 +3,7 @@ package main
 import (
 	"fmt"
 	"net/http"
+	"slices"
 	"strings"
 	"sync"
 
@@ -236,7 +237,7 @@ func c12Ops() []string {
 			}
 		}
 		ops = append(ops, fmt.Sprintf("scribble-input:m%d", mi), fmt.Sprintf("config-scribble:m%d", mi), fmt.Sprintf("reconfigure-scribble:m%d", mi), fmt.Sprintf("roundtrip-scribble:m%d", mi),
-			fmt.Sprintf("edit-resubmit:m%d", mi))
+			fmt.Sprintf("edit-resubmit:m%d", mi), fmt.Sprintf("detour:m%d", mi))
 	}
 	return ops
 }
@@ -247,7 +248,7 @@ func c12ReducedOps(thorough bool) []string {
 	var ops []string
 	for mi := 0; mi < c12N; mi++ {
 		ops = append(ops, fmt.Sprintf("serve:m%d:r2:scribble", mi), fmt.Sprintf("serve:m%d:r1:scribble", mi),
-			fmt.Sprintf("scribble-input:m%d", mi), fmt.Sprintf("config-scribble:m%d", mi), fmt.Sprintf("reconfigure-scribble:m%d", mi), fmt.Sprintf("edit-resubmit:m%d", mi))
+			fmt.Sprintf("scribble-input:m%d", mi), fmt.Sprintf("config-scribble:m%d", mi), fmt.Sprintf("reconfigure-scribble:m%d", mi), fmt.Sprintf("edit-resubmit:m%d", mi), fmt.Sprintf("detour:m%d", mi))
 		if thorough {
 			ops = append(ops, fmt.Sprintf("serve:m%d:r7:scribble-preset", mi), fmt.Sprintf("roundtrip-scribble:m%d", mi))
 		}
@@ -283,6 +284,40 @@ func (w *c12World) apply(op string) error {
 			return err
 		}
 		scribbleConfig(&c)
+	case "detour":
+		// requests from every origin the probes use, then Reconfigure to the next middleware's configuration: from
+		// then on the answers must be those of a fresh middleware for that configuration (whatever was served before);
+		// then requests again and Reconfigure back
+		serveAll := func() {
+			h := w.m[mi].Wrap(noopHandler)
+			for _, p := range c12Probes() {
+				h.ServeHTTP(vlib.NewRec(), p.HTTP())
+			}
+		}
+		serveAll()
+		otherLit := w.lits[(mi+1)%c12N]
+		other := otherLit.Config()
+		if err := w.m[mi].Reconfigure(&other); err != nil {
+			return err
+		}
+		fresh, err := cors.NewMiddleware(otherLit.Config())
+		if err != nil {
+			return err
+		}
+		fresh.SetDebug(mi == 1 || mi == 2)
+		probes := c12Probes()
+		for rev := 0; rev < 2; rev++ {
+			a, b := observe(w.m[mi], probes), observe(fresh, probes)
+			if j := firstDiff(a, b); j >= 0 {
+				return fmt.Errorf("after serving the probes under %s and reconfiguring to %s, %s is answered with %s; a fresh middleware for that configuration answers %s", w.lits[mi].GoLiteral(), otherLit.GoLiteral(), probes[j], a[j], b[j])
+			}
+			slices.Reverse(probes)
+		}
+		serveAll()
+		own := w.lits[mi].Config()
+		if err := w.m[mi].Reconfigure(&own); err != nil {
+			return err
+		}
 	case "edit-resubmit":
 		// the caller keeps one Config value, edits one list after the other in place (one entry each) and resubmits
 		// it: every resubmission must take effect (compared with a fresh middleware for a copy of the edited value);
